@@ -58,15 +58,6 @@ func runSeed(jobSeed uint64, property string, i int) uint64 {
 	return mix(jobSeed, hashStr(property), uint64(i))
 }
 
-// attribute maps a violation seen in a run to the property being checked:
-// C09 reports safety violations in fault-affected runs as its own.
-func attribute(property string, v Violation, res *Result) (Violation, bool) {
-	if v.Prop == property {
-		return v, true
-	}
-	return v, false
-}
-
 func RunJob(t *testing.T, job Job) *Partial {
 	p := &Partial{Job: job, Counters: map[string]int{}, OtherViol: map[string]int{}}
 	start := time.Now()
@@ -122,7 +113,8 @@ func RunJob(t *testing.T, job Job) *Partial {
 			pairs[h] = struct{}{}
 		}
 		for _, v := range res.Violations {
-			if v.Prop == job.Property || (job.Property == "C09" && c09Attributable(v)) {
+			if av, ok := attributeTo(job.Property, v, res); ok {
+				v = av
 				sig := v.Sig()
 				seenSig[sig]++
 				if seenSig[sig] <= 3 {
@@ -159,7 +151,42 @@ func RunJob(t *testing.T, job Job) *Partial {
 	return p
 }
 
-func c09Attributable(v Violation) bool { return false }
+// attributeTo maps a violation seen in a run to the property being checked.
+// C15 reports starvation of the well-formed neighbour; C09 reports unsafe partial
+// work, swallowed failures, broken bookkeeping and missing recovery in runs in
+// which faults or crashes actually fired.
+func attributeTo(property string, v Violation, res *Result) (Violation, bool) {
+	if v.Prop == property {
+		return v, true
+	}
+	switch property {
+	case "C15":
+		if v.Prop == "C02" && res.Config != nil && res.Config.Profile == "hostile" {
+			return Violation{Prop: "C15", Check: "C15.neighbour-starved", Disc: v.Disc, Step: v.Step, Detail: v.Detail}, true
+		}
+	case "C09":
+		faults := 0
+		for k, n := range res.Counters {
+			if len(k) > 6 && k[:6] == "fault." {
+				faults += n
+			}
+		}
+		if faults == 0 {
+			return v, false
+		}
+		switch {
+		case v.Prop == "C02":
+			return Violation{Prop: "C09", Check: "C09.no-recovery", Disc: v.Check + ":" + v.Disc, Step: v.Step, Detail: v.Detail}, true
+		case v.Check == "C16.queue-bookkeeping":
+			return Violation{Prop: "C09", Check: "C09.queue-bookkeeping", Disc: v.Disc, Step: v.Step, Detail: v.Detail}, true
+		case v.Prop == "C16" || v.Prop == "C01" || v.Prop == "C15":
+			return v, false
+		default:
+			return Violation{Prop: "C09", Check: "C09.unsafe-partial", Disc: v.Check + ":" + v.Disc, Step: v.Step, Detail: v.Detail}, true
+		}
+	}
+	return v, false
+}
 
 func sampleSteps(st []Step) []string {
 	var out []string
@@ -195,10 +222,12 @@ func (r *Replay) spec() RunSpec {
 	return RunSpec{Seed: r.Seed, Profile: r.Profile, Config: r.Config, Steps: r.Steps}
 }
 
-func findViolation(res *Result, check, disc string) *Violation {
+// findViolation looks for (check, disc) among the run's violations as
+// attributed to property.
+func findViolation(res *Result, property, check, disc string) *Violation {
 	for i := range res.Violations {
-		if res.Violations[i].Check == check && res.Violations[i].Disc == disc {
-			return &res.Violations[i]
+		if v, ok := attributeTo(property, res.Violations[i], res); ok && v.Check == check && v.Disc == disc {
+			return &v
 		}
 	}
 	return nil
@@ -214,12 +243,12 @@ func Minimize(t *testing.T, f Failure, budget time.Duration) *Replay {
 	fails := func(c *Config, st []Step) bool {
 		tries++
 		res := RunOne(t, RunSpec{Seed: f.Spec.Seed, Profile: f.Spec.Profile, Config: c, Steps: st})
-		return res.Harness == "" && findViolation(res, check, disc) != nil
+		return res.Harness == "" && findViolation(res, f.Violation.Prop, check, disc) != nil
 	}
 	out := func() *Replay {
 		r := &Replay{Property: f.Violation.Prop, Check: check, Disc: disc, Profile: f.Spec.Profile, Seed: f.Spec.Seed, Config: cfg, Steps: steps}
 		res := RunOne(t, r.spec())
-		if v := findViolation(res, check, disc); v != nil {
+		if v := findViolation(res, f.Violation.Prop, check, disc); v != nil {
 			r.Expect.TraceHash = res.TraceHash
 			r.Expect.Detail = v.Detail
 		}
